@@ -54,6 +54,72 @@ func main() {
 				enc.Encode(mut{rel, p.Offset, "ARGS:" + strconv.Itoa(q.Offset-p.Offset), "", p.Line, kind})
 			}
 		}
+		if os.Getenv("MUT_WRONGVAR") != "" {
+			// the wrong one of two similar variables or fields: every use of a local variable or
+			// parameter replaced by another one of the same function, every selected field by another
+			// field selected on the same base in the same function (the compiler drops the ill-typed)
+			for _, d := range f.Decls {
+				fd, ok := d.(*ast.FuncDecl)
+				if !ok || fd.Body == nil {
+					continue
+				}
+				var names []string
+				seen := map[string]bool{}
+				fieldsOf := map[string][]string{}
+				ast.Inspect(fd, func(n ast.Node) bool {
+					switch x := n.(type) {
+					case *ast.Ident:
+						if x.Obj != nil && x.Obj.Kind == ast.Var && x.Name != "_" && !seen[x.Name] {
+							seen[x.Name] = true
+							names = append(names, x.Name)
+						}
+					case *ast.SelectorExpr:
+						if b, ok := x.X.(*ast.Ident); ok && b.Obj != nil {
+							have := false
+							for _, s := range fieldsOf[b.Name] {
+								if s == x.Sel.Name {
+									have = true
+								}
+							}
+							if !have {
+								fieldsOf[b.Name] = append(fieldsOf[b.Name], x.Sel.Name)
+							}
+						}
+					}
+					return true
+				})
+				ast.Inspect(fd.Body, func(n ast.Node) bool {
+					switch x := n.(type) {
+					case *ast.AssignStmt:
+						// left-hand sides are definitions or targets: leave them
+						for _, r := range x.Rhs {
+							ast.Inspect(r, func(m ast.Node) bool { return true })
+						}
+					case *ast.SelectorExpr:
+						if b, ok := x.X.(*ast.Ident); ok && b.Obj != nil {
+							for _, alt := range fieldsOf[b.Name] {
+								if alt != x.Sel.Name {
+									p := fset.Position(x.Sel.Pos())
+									enc.Encode(mut{rel, p.Offset, x.Sel.Name, alt, p.Line, "wrongfield"})
+								}
+							}
+						}
+					case *ast.Ident:
+						if x.Obj == nil || x.Obj.Kind != ast.Var || x.Obj.Pos() == x.Pos() {
+							return true
+						}
+						for _, alt := range names {
+							if alt != x.Name {
+								p := fset.Position(x.Pos())
+								enc.Encode(mut{rel, p.Offset, x.Name, alt, p.Line, "wrongvar"})
+							}
+						}
+					}
+					return true
+				})
+			}
+			return nil
+		}
 		ast.Inspect(f, func(n ast.Node) bool {
 			if blk, ok := n.(*ast.BlockStmt); ok && os.Getenv("MUT_DELETE") != "" {
 				for _, st := range blk.List {
